@@ -157,9 +157,11 @@ package mhprimary
 //@   pure
 //@   ensures err == nil ==> h.MaxFileSize > 0 && h.MaxFileSize <= (1 << 30)
 
-//@ func writeHeader(headerPath string, header Header) (err error)
-//@   trusted the header file is rewritten in place by os.WriteFile (finding F11: not atomic; see DESIGN.md)
-//@   pure
+// writeHeader (C03-D6, finding F11 fixed): the live header is never written in place; the new
+// contents go to a temporary file that is renamed over it.
+//@ func writeHeader(headerPath string, header Header) (err error)  property C03
+//@   assert at before call os.WriteFile#0: @D6-never-in-place $a0 == headerPath + ".tmp"
+//@   assert at before call os.Rename#0: @D6-atomic-replace $a0 == headerPath + ".tmp" && $a1 == headerPath && event("call:os.WriteFile") == 1
 
 //@ footprint MHGC = heap("multihash.primaryGC.reclaimed"), heap("multihash.MultihashPrimary.rec"), heap("multihash.MultihashPrimary.nextPool"), heap("multihash.MultihashPrimary.outstandingWork"), heap("multihash.blockRecord"), heap("types.Block->int"), heap("freelist.FreeList"), heap("E:uint8"), heap("E:~/store/types.Block"), heap("G:"), heap("os.File")
 
